@@ -57,6 +57,12 @@ CLAIMED["C14"] = dict(
     text="Seeded search over timing configurations x histories x clock advances; the real RepublishIfNeeded / RenewObjectsIfNeeded tasks fire from the real scheduler under the virtual clock and every stored set is decoded before and after each run (due => re-issued with number+1, not due => byte-identical, payload names unchanged, numbers monotone), plus a relying-party walk at quiescence for windows containing the present.",
     design_ref="DESIGN.md §5 C14",
 )
+CLAIMED["C06"] = dict(
+    category="exploration",
+    technique="deterministic simulation: seeded histories with real snapshot tasks and restarts; three-way comparison live / snapshot+commands / init+all commands for every aggregate type, plus API views and the content log",
+    text="Seeded search over command histories with snapshots and restarts at seed-chosen points on both storage back-ends; every aggregate type is rebuilt from the same stored bytes in two further ways and compared field by field with the live state (two wall-clock fields masked), replays run under catch_unwind.",
+    design_ref="DESIGN.md §5 C06",
+)
 PENDING = {}
 
 def main():
